@@ -26,7 +26,7 @@ META = {
 
 
 def select(s):
-    return (s["changeAt"] == "none" and s["holder"] == "none"
+    return (not s["symlink"] and s["changeAt"] == "none" and s["holder"] == "none"
             and (s["faultAt"] == "none" or s["faultKind"] in ("error", "panic")))
 
 
@@ -36,8 +36,10 @@ def judge(scn, adm, obs):
         out.append(("sibling-stem.delete-clobbered",
                     "the unrelated file <stem>.delete next to the output was overwritten/removed (old output is renamed to path.with_extension(\"delete\"))"))
     others = [t for t in obs["touched"] if not t.endswith(".delete")]
+    import re as _re
     if others:
-        out.append((f"touched-undeclared:{'|'.join(sorted(os.path.basename(t) for t in others))[:60]}",
+        names = sorted({_re.sub(r"\.\d+\.wild-delete$", ".<pid>.wild-delete", os.path.basename(t)) for t in others})
+        out.append((f"touched-undeclared:{'|'.join(names)[:60]}",
                     f"paths other than the declared outputs changed or appeared: {others}"))
     return out
 
